@@ -347,7 +347,9 @@ impl Vm {
         let op_code: ByteCode = ByteCode::from_byte_unchecked(self.read_byte());
 
         #[cfg(laythe_verif)]
-        verif::probe(self);
+        if verif::probe(self) {
+          return ExecutionResult::RuntimeError;
+        }
 
         #[cfg(feature = "debug")]
         {
